@@ -372,7 +372,7 @@ def newaxis(self, name, values=None, pos=0):
         raise ValueError("dimension already present: "+name)
 
     assert type(pos) is int
-    if pos == -1: pos = len(self.dims)
+    if pos < 0: pos += len(self.dims) + 1 # -1 appends, -2 inserts before the last dimension etc.
 
     newaxis = (slice(None),)*pos + (np.newaxis,) # pad with ":" to match pos
     newvalues = self.values[newaxis] 
